@@ -5,6 +5,7 @@ package cluster
 
 import (
 	"context"
+	"strings"
 	"fmt"
 	"sync"
 	"time"
@@ -30,6 +31,8 @@ type LeaseService struct {
 	primaryInfoErr map[string]error
 	clusterIDErr   map[string]error
 	stall          map[string]chan struct{} // calls by the node block until the channel is closed
+
+	grantCID map[string]string // lease id -> the service's cluster id at the moment the lease was granted
 
 	// OnClose, if set, is called (without the service's mutex) when a node gives its
 	// lease back, before the service forgets it.
@@ -90,6 +93,49 @@ func (s *LeaseService) SetClusterIDDirect(id string) {
 	s.mu.Lock()
 	s.clusterID = id
 	s.mu.Unlock()
+}
+
+// Stall makes the node's next calls of one operation ("acquire", "primary-info",
+// "cluster-id") wait until Unstall: a slow lease service, at a chosen point of the
+// node's election loop.
+func (s *LeaseService) Stall(node, op string) {
+	s.mu.Lock()
+	defer s.mu.Unlock()
+	if s.stall[node+"/"+op] == nil {
+		s.stall[node+"/"+op] = make(chan struct{})
+	}
+}
+
+// Unstall releases every stalled call of the node ("" = all nodes).
+func (s *LeaseService) Unstall(node string) {
+	s.mu.Lock()
+	defer s.mu.Unlock()
+	for k, ch := range s.stall {
+		if node == "" || strings.HasPrefix(k, node+"/") {
+			close(ch)
+			delete(s.stall, k)
+		}
+	}
+}
+
+func (s *LeaseService) waitStall(ctx context.Context, node, op string) {
+	s.mu.Lock()
+	ch := s.stall[node+"/"+op]
+	s.mu.Unlock()
+	if ch != nil {
+		select {
+		case <-ch:
+		case <-ctx.Done():
+		}
+	}
+}
+
+// ClusterIDAtGrant returns the service's cluster id at the moment the lease was granted to
+// the node ("" if it had none then, or if no such grant is known).
+func (s *LeaseService) ClusterIDAtGrant(node, leaseID string) string {
+	s.mu.Lock()
+	defer s.mu.Unlock()
+	return s.grantCID[leaseID+"/"+node]
 }
 
 // ClusterIDDirect reads the service's cluster id.
@@ -161,6 +207,7 @@ func (l *NodeLeaser) AdvertiseURL() string {
 
 func (l *NodeLeaser) Acquire(ctx context.Context) (litefs.Lease, error) {
 	s := l.svc
+	s.waitStall(ctx, l.Name, "acquire")
 	s.mu.Lock()
 	defer s.mu.Unlock()
 	if err := scripted(s.acquireErr, l.Name); err != nil {
@@ -174,6 +221,10 @@ func (l *NodeLeaser) Acquire(ctx context.Context) (litefs.Lease, error) {
 	s.seq++
 	lease := &Lease{svc: s, id: fmt.Sprintf("lease-%d", s.seq), owner: l, renewedAt: time.Now(), handoffCh: make(chan uint64)}
 	s.holder = lease
+	if s.grantCID == nil {
+		s.grantCID = map[string]string{}
+	}
+	s.grantCID[lease.id+"/"+l.Name] = s.clusterID
 	s.record(l.Name, "acquire", "", nil, "granted:"+lease.id)
 	return lease, nil
 }
@@ -191,12 +242,17 @@ func (l *NodeLeaser) AcquireExisting(ctx context.Context, leaseID string) (litef
 	old.handedOff = true
 	lease := &Lease{svc: s, id: leaseID, owner: l, renewedAt: time.Now(), handoffCh: make(chan uint64)}
 	s.holder = lease
+	if s.grantCID == nil {
+		s.grantCID = map[string]string{}
+	}
+	s.grantCID[leaseID+"/"+l.Name] = s.clusterID
 	s.record(l.Name, "acquire-existing", leaseID, nil, "granted:"+leaseID+" from "+old.owner.Name)
 	return lease, nil
 }
 
 func (l *NodeLeaser) PrimaryInfo(ctx context.Context) (litefs.PrimaryInfo, error) {
 	s := l.svc
+	s.waitStall(ctx, l.Name, "primary-info")
 	s.mu.Lock()
 	defer s.mu.Unlock()
 	if err := scripted(s.primaryInfoErr, l.Name); err != nil {
@@ -214,6 +270,7 @@ func (l *NodeLeaser) PrimaryInfo(ctx context.Context) (litefs.PrimaryInfo, error
 
 func (l *NodeLeaser) ClusterID(ctx context.Context) (string, error) {
 	s := l.svc
+	s.waitStall(ctx, l.Name, "cluster-id")
 	s.mu.Lock()
 	defer s.mu.Unlock()
 	if err := scripted(s.clusterIDErr, l.Name); err != nil {
